@@ -242,7 +242,13 @@ namespace adm {
       static constexpr bool has_add_remove = true;
 
       ADM_BASE_EXPORT T get(Tag) const { return value_; }
-      ADM_BASE_EXPORT void set(T value) { value_ = std::move(value); }
+      /// replaces all items; like add(), keeps only the first of equal items
+      ADM_BASE_EXPORT void set(T value) {
+        value_.clear();
+        for (auto& item : value) {
+          add(std::move(item));
+        }
+      }
       ADM_BASE_EXPORT bool has(Tag) const { return value_.size() > 0; }
       ADM_BASE_EXPORT bool isDefault(Tag) const { return false; }
       ADM_BASE_EXPORT void unset(Tag) { value_.clear(); }
